@@ -526,6 +526,26 @@ static void c10(void) {
     /* (b)+(c) grammar enumeration */
     build_snappy_alphabets();
     static sb_t sb; ref_buf_init(&sb.s); ref_buf_init(&sb.o);
+    /* the preamble: every length at the boundaries of the 1..5-byte varint forms (the format allows 2^32 - 1) */
+    mc_stage("c10.b.snappy.preamble.every-varint-form");
+    { static const uint64_t PV[] = { 0, 1, 127, 128, 129, 16383, 16384, 16385, (1u << 21) - 1, 1u << 21, (1u << 21) + 1, (1u << 28) - 1, 1u << 28, (1u << 28) + 1, (1u << 28) + 64, 0x7fffffffu, 0x80000000u, 0xfffffffeu, 0xffffffffu };
+      for (int i = 0; i < 19; i++) for (int tail = 0; tail < 2; tail++) {
+          if (!mc_next()) continue;
+          uint8_t pb[12]; size_t pn = 0; uint64_t v = PV[i]; do { uint8_t b = (uint8_t)(v & 0x7f); v >>= 7; pb[pn++] = (uint8_t)(b | (v ? 0x80 : 0)); } while (v); if (tail) { pb[pn++] = 0x00; pb[pn++] = 0x41; }      /* with / without a first element behind it */
+          mc_desc("c10b:snappy;preamble=%llu (%zu-byte varint)%s", (unsigned long long)PV[i], tail ? pn - 2 : pn, tail ? " + one literal" : ""); mc_case_key(mc_mix(0xb9, ((uint64_t)i << 1) | (uint64_t)tail)); mc_nontrivial();
+          uint8_t* x = mc_arena_tail(&A_cin, pn); memcpy(x, pb, pn); size_t got = 12345; carquet_status_t st = carquet_snappy_get_uncompressed_length(x, pn, &got);
+          if (st != CARQUET_OK || got != (size_t)PV[i]) { char key[96]; snprintf(key, sizeof key, "snappy.preamble.%s", (tail ? pn - 2 : pn) >= 5 ? "five-byte-varint" : "short-varint"); mc_fail(key, "declared length %llu: get_uncompressed_length returned status %d, length %zu (preamble %s)", (unsigned long long)PV[i], st, got, mc_hex(pb, pn, 8)); }
+      } }
+    if (mc_thorough()) {       /* one valid stream whose declared length needs the five-byte form: a 64-byte literal and 2^22 - 1 copies of it (256 MiB of output) */
+        mc_stage("c10.b.snappy.declared-length-2^28");
+        if (mc_next()) { mc_desc("c10b:snappy;declared-length=268435456;one-literal-then-copies"); mc_case_key(0xba01); mc_nontrivial(); mc_budget_ms(300000);
+            size_t n = (size_t)1 << 28, ncopies = n / 64 - 1, sn = 5 + 2 + 64 + ncopies * 3; uint8_t* st8 = malloc(sn); uint8_t* out = malloc(n); size_t p = 0;
+            if (st8 && out) { uint64_t v = n; do { uint8_t b = (uint8_t)(v & 0x7f); v >>= 7; st8[p++] = (uint8_t)(b | (v ? 0x80 : 0)); } while (v); st8[p++] = 60 << 2; st8[p++] = 63; for (int i = 0; i < 64; i++) st8[p++] = (uint8_t)(i * 3 + 1);
+                for (size_t c = 0; c < ncopies; c++) { st8[p++] = (uint8_t)(2 | (63 << 2)); st8[p++] = 64; st8[p++] = 0; }
+                size_t on = 0; int rc = carquet_snappy_decompress(st8, p, out, n, &on); bool ok = rc == 0 && on == n; for (size_t i = 0; ok && i < n; i += 4099) ok = out[i] == (uint8_t)((i % 64) * 3 + 1);
+                if (!ok) mc_fail("snappy.valid-stream-rejected.declared-length-needs-five-bytes", "declared length 2^28: status %d, %zu bytes", rc, on); }
+            free(st8); free(out); }
+    }
     mc_stage("c10.bc.snappy.full-alphabet.up-to-2-elements");
     {   /* empty stream: preamble 0 only */
         if (mc_next()) { mc_desc("c10b:snappy;empty"); mc_case_key(mc_mix(0xb0, 0)); snappy_case(&sb, NULL, 0); }
